@@ -72,3 +72,280 @@ pub fn menu_avps() -> Vec<SAvp> {
     v.push(SAvp::Hidden { attr: 0, value: vec![] });
     v
 }
+
+// ---------------------------------------------------------------------------------------------
+// scalar alphabets
+
+pub fn u32_boundary() -> Vec<u32> {
+    let mut v: Vec<u32> = vec![0, 1, 0x7fff_ffff, 0x8000_0000, 0x8000_0001, 0xffff_ffff, 0x0102_0304];
+    for i in 0..32 {
+        v.push(1 << i);
+        v.push(!(1u32 << i));
+    }
+    for octet in 0..4 {
+        for b in 1..=255u32 {
+            v.push(b << (8 * octet));
+        }
+    }
+    v.sort();
+    v.dedup();
+    v
+}
+
+pub fn u64_boundary() -> Vec<u64> {
+    let mut v: Vec<u64> = vec![0, 1, u64::MAX, 1 << 63, (1 << 63) - 1, 0x0102_0304_0506_0708];
+    for i in 0..64 {
+        v.push(1 << i);
+        v.push(!(1u64 << i));
+    }
+    for octet in 0..8 {
+        for b in 1..=255u64 {
+            v.push(b << (8 * octet));
+        }
+    }
+    v.sort();
+    v.dedup();
+    v
+}
+
+pub fn u16_boundary() -> Vec<u16> {
+    let mut v: Vec<u16> = vec![0, 1, 2, 7, 8, 9, 11, 12, 255, 256, 257, 0x7fff, 0x8000, 0xfffe, 0xffff, 0x0102];
+    for i in 0..16 {
+        v.push(1 << i);
+    }
+    v.sort();
+    v.dedup();
+    v
+}
+
+/// payload lengths that put the AVP length at 7, 8, 9, 21..23, 255..257, 511/512, 1022/1023
+pub const VAR_LENGTHS: [usize; 13] = [1, 2, 3, 15, 16, 17, 249, 250, 251, 505, 506, 1016, 1017];
+/// lengths whose AVP would exceed 1023 octets
+pub const OVERSIZE_LENGTHS: [usize; 4] = [1018, 1019, 2000, 65_530];
+
+fn byte_contents(n: usize) -> Vec<Vec<u8>> {
+    vec![ramp(n), vec![0u8; n], vec![0xffu8; n]]
+}
+
+fn str_contents(n: usize) -> Vec<String> {
+    if n == 0 {
+        return vec![String::new()];
+    }
+    let mut v = vec![ascii(n), utf8_of_len(n)];
+    v.dedup();
+    v
+}
+
+/// Value alphabet of one AVP kind. `domain_only`: restrict to the round-trip domain of C03
+/// (non-empty variable parts, AVP at most 1023 octets). Otherwise values the encoder accepts but
+/// that do not round-trip (empty payloads, `Some("")`) and oversize payloads are included.
+/// `full16`: enumerate all 65 536 values of 16-bit fields.
+pub fn avp_values(attr: u16, domain_only: bool, full16: bool) -> Vec<SAvp> {
+    let (k, _) = spec::kind_of(attr).expect("known attribute");
+    let mut out: Vec<SVal> = Vec::new();
+    let lengths = |fixed: usize| -> Vec<usize> {
+        let mut l: Vec<usize> = VAR_LENGTHS.iter().filter(|x| **x + fixed <= 1017).copied().collect();
+        // exact fit of the 1023-octet AVP
+        if fixed > 0 && 1017 > fixed {
+            l.push(1017 - fixed);
+            l.push(1016 - fixed);
+        }
+        if !domain_only {
+            l.push(0);
+            l.push(1018 - fixed);
+            for o in OVERSIZE_LENGTHS {
+                l.push(o);
+            }
+        }
+        l.sort();
+        l.dedup();
+        l
+    };
+    match k {
+        Kind::MessageType => out.extend(spec::MESSAGE_TYPE_CODES.iter().map(|c| SVal::MessageType(*c))),
+        Kind::PAType => out.extend((0..=spec::PROXY_AUTHEN_TYPE_MAX).map(SVal::PAType)),
+        Kind::PAId => out.extend((0..=255u8).map(SVal::PAId)),
+        Kind::ProtoVer => {
+            if full16 {
+                for v in 0..=255u8 {
+                    for r in 0..=255u8 {
+                        out.push(SVal::ProtoVer(v, r));
+                    }
+                }
+            } else {
+                for v in [0u8, 1, 2, 0x7f, 0x80, 0xff] {
+                    for r in [0u8, 1, 0xfe, 0xff] {
+                        out.push(SVal::ProtoVer(v, r));
+                    }
+                }
+            }
+        }
+        Kind::U16 => {
+            if full16 {
+                out.extend((0..=0xffffu16).map(SVal::U16));
+            } else {
+                out.extend(u16_boundary().into_iter().map(SVal::U16));
+            }
+        }
+        Kind::U32 => out.extend(u32_boundary().into_iter().map(SVal::U32)),
+        Kind::Bits => out.extend(u32_boundary().into_iter().map(SVal::Bits)),
+        Kind::U64 => out.extend(u64_boundary().into_iter().map(SVal::U64)),
+        Kind::Bytes => {
+            for n in lengths(0) {
+                for c in byte_contents(n) {
+                    out.push(SVal::Bytes(c));
+                }
+            }
+        }
+        Kind::Str => {
+            for n in lengths(0) {
+                for c in str_contents(n) {
+                    out.push(SVal::Str(c));
+                }
+            }
+        }
+        Kind::Fix4 => {
+            for c in [[0xde, 0xad, 0xbe, 0xef], [0, 0, 0, 0], [0xff; 4], [0, 0, 0, 1], [0x80, 0, 0, 0]] {
+                out.push(SVal::Fix4(c));
+            }
+        }
+        Kind::Fix16 => {
+            for c in byte_contents(16) {
+                out.push(SVal::Fix16(c.try_into().unwrap()));
+            }
+            let mut one = [0u8; 16];
+            one[15] = 1;
+            out.push(SVal::Fix16(one));
+            one = [0u8; 16];
+            one[0] = 0x80;
+            out.push(SVal::Fix16(one));
+        }
+        Kind::ResultCode => {
+            let codes: Vec<u16> = if full16 { (0..=0xffff).collect() } else { u16_boundary() };
+            for c in &codes {
+                out.push(SVal::ResultCode { code: *c, error: None });
+            }
+            for et in 0..=spec::ERROR_TYPE_MAX {
+                out.push(SVal::ResultCode { code: 0x0102, error: Some((et, None)) });
+                out.push(SVal::ResultCode { code: 2, error: Some((et, Some("x".into()))) });
+            }
+            for n in lengths(4) {
+                if n == 0 && domain_only {
+                    continue;
+                }
+                for s in str_contents(n) {
+                    out.push(SVal::ResultCode { code: 0x0102, error: Some((6, Some(s))) });
+                }
+            }
+        }
+        Kind::Q931 => {
+            for c in u16_boundary() {
+                out.push(SVal::Q931 { code: c, msg: 0x7f, adv: None });
+            }
+            for m in [0u8, 1, 0x80, 0xff] {
+                out.push(SVal::Q931 { code: 0x0310, msg: m, adv: None });
+                out.push(SVal::Q931 { code: 0x0310, msg: m, adv: Some("a".into()) });
+            }
+            for n in lengths(3) {
+                if n == 0 && domain_only {
+                    continue;
+                }
+                for s in str_contents(n) {
+                    out.push(SVal::Q931 { code: 0x0310, msg: 0x10, adv: Some(s) });
+                }
+            }
+        }
+        Kind::CallErrors => {
+            let base = [0x01020304u32, 0x11121314, 0x21222324, 0x31323334, 0x41424344, 0x51525354];
+            out.push(SVal::CallErrors(base));
+            out.push(SVal::CallErrors([0; 6]));
+            out.push(SVal::CallErrors([u32::MAX; 6]));
+            // deviation-bounded: up to two fields at an extreme
+            for i in 0..6 {
+                for x in [0u32, u32::MAX, 1, 0x8000_0000] {
+                    let mut a = base;
+                    a[i] = x;
+                    out.push(SVal::CallErrors(a));
+                    for j in (i + 1)..6 {
+                        for y in [0u32, u32::MAX] {
+                            let mut b = a;
+                            b[j] = y;
+                            out.push(SVal::CallErrors(b));
+                        }
+                    }
+                }
+            }
+        }
+        Kind::Accm => {
+            for (s, r) in [
+                ([1u8, 2, 3, 4], [0xf1u8, 0xf2, 0xf3, 0xf4]),
+                ([0; 4], [0; 4]),
+                ([0xff; 4], [0xff; 4]),
+                ([0; 4], [0xff; 4]),
+                ([0xff; 4], [0; 4]),
+                ([0, 0, 0, 1], [0x80, 0, 0, 0]),
+            ] {
+                out.push(SVal::Accm(s, r));
+            }
+        }
+        Kind::Empty => out.push(SVal::Empty),
+    }
+    out.into_iter().map(|v| plain(attr, v)).collect()
+}
+
+pub fn hidden_values(domain_only: bool, full16: bool) -> Vec<SAvp> {
+    let mut out = Vec::new();
+    let attrs: Vec<u16> = if full16 { (0..=0xffff).collect() } else { u16_boundary() };
+    let mut lens = vec![0usize, 1, 15, 16, 17, 32, 1008, 1017];
+    if !domain_only {
+        lens.extend([1018, 2000]);
+    }
+    for n in &lens {
+        for a in [7u16, 0, 39, 0xffff] {
+            out.push(SAvp::Hidden { attr: a, value: ramp(*n) });
+        }
+    }
+    for a in attrs {
+        out.push(SAvp::Hidden { attr: a, value: ramp(16) });
+        out.push(SAvp::Hidden { attr: a, value: vec![] });
+    }
+    out
+}
+
+pub fn payload_in_domain(a: &SAvp) -> bool {
+    // C03's domain: variable-length payloads non-empty, AVP at most 1023 octets
+    let len_ok = 6 + spec::payload_of(a).len() <= 1023;
+    let nonempty = match a {
+        SAvp::Hidden { .. } => true,
+        SAvp::Plain { val, .. } => match val {
+            SVal::Bytes(b) => !b.is_empty(),
+            SVal::Str(s) => !s.is_empty(),
+            SVal::ResultCode { error: Some((_, Some(m))), .. } => !m.is_empty(),
+            SVal::Q931 { adv: Some(a), .. } => !a.is_empty(),
+            _ => true,
+        },
+    };
+    len_ok && nonempty
+}
+
+/// 48-entry menu for AVP lists of control messages: every kind once, plus optional parts
+/// absent / present, maximal payloads, hidden values.
+pub fn list_menu() -> Vec<SAvp> {
+    let mut v: Vec<SAvp> = spec::ALL_ATTRS.iter().map(|a| canonical(*a)).collect();
+    v.push(plain(1, SVal::ResultCode { code: 2, error: None }));
+    v.push(plain(1, SVal::ResultCode { code: 0xffff, error: Some((0, None)) }));
+    v.push(plain(12, SVal::Q931 { code: 0, msg: 0, adv: None }));
+    v.push(plain(7, SVal::Bytes(ramp(1017))));
+    v.push(plain(8, SVal::Str(utf8_of_len(250))));
+    v.push(SAvp::Hidden { attr: 7, value: ramp(16) });
+    v.push(SAvp::Hidden { attr: 0xffff, value: ramp(32) });
+    v.push(SAvp::Hidden { attr: 0, value: vec![] });
+    v.push(plain(0, SVal::MessageType(16)));
+    v
+}
+
+/// 16-entry sub-menu for longer lists
+pub fn short_menu() -> Vec<SAvp> {
+    let m = list_menu();
+    [0usize, 1, 5, 7, 8, 12, 13, 25, 28, 31, 33, 34, 38, 42, 44, 46].iter().map(|i| m[*i].clone()).collect()
+}
